@@ -125,6 +125,43 @@ def aggregate_sites(fx, rec):
 
 
 # ---------------------------------------------------------------------------
+def helper_roots(fx, name, allowed):
+    """If `name` is a non-public member (or a file-local free function) all of whose transitive callers end in
+    functions of `allowed`, return those allowed callers; else None. Extracting lines of a tabled function into such
+    a helper does not widen the set of functions the table speaks about."""
+    def callers_of(n_):
+        out = set()
+        for f_ in fx.fn(n_, required=False):
+            for cf, _c in fx.callers.get(f_.usr, []):
+                out.add(q.top_function(fx, cf).norm)
+        return out
+
+    def is_helper(n_, seen=()):
+        fs = fx.fn(n_, required=False)
+        if not fs or n_ in seen:
+            return False
+        if not all((f_.d.get('access') in ('private', 'protected')) or (f_.kind == 'function' and f_.cls is None and f_.file.endswith('.cpp')) for f_ in fs):
+            return False
+        cs = callers_of(n_)
+        if not cs:
+            return False
+        return all(c in allowed or is_helper(c, seen + (n_,)) for c in cs)
+    if name in allowed or not is_helper(name):
+        return None
+    roots, todo, visited = set(), [name], set()
+    while todo:
+        x = todo.pop()
+        if x in visited:
+            continue
+        visited.add(x)
+        for c in callers_of(x):
+            if c in allowed:
+                roots.add(c)
+            else:
+                todo.append(c)
+    return roots
+
+
 def r2_writer_table(run, field, allowed, rule='R2', instance=None, kinds=None, is_global=False, required=None):
     """R2 WRITER-TABLE: every function writing `field` must be in `allowed`
     (dict name -> reason). `required`: writers that must still exist."""
